@@ -124,6 +124,7 @@ def eval_spec(spec):
     cnt(f"cell {spec['sys']} {kind} para={spec['para']} data={data}")
     zeros = sum(int((p == 0).sum()) for _, p in empi)
     cnt("data with empty outcomes" if zeros else "data without empty outcomes")
+    iters = {}
     for est in [tuple(e) for e in spec["ests"]]:
         name = est_name(est)
         fam = "ple" if est[0] == "ple" else est[2]
@@ -137,6 +138,7 @@ def eval_spec(spec):
             cnt(f"raises {type(e).__name__}:{key}")
             continue
         cnt(f"estimator {fam}")
+        iters[name] = 0 if est[0] == "ple" else int(r.detailed_results[0].k)
         if "iterations exceeds" in msg:
             cnt(f"iteration limit reached ({'projection' if 'projection' in msg else fam})")
         eqd, mine = L.defects(obj)
@@ -195,6 +197,8 @@ def eval_spec(spec):
         for est in [tuple(e) for e in spec.get("seq_ests", spec["ests"][1:3])]:
             name = est_name(est)
             fam = "ple" if est[0] == "ple" else est[2]
+            if "seq_ests" not in spec and iters.get(name, 10 ** 9) > 60:
+                continue            # five more runs of a long optimisation: outside the time budget (rule depends on the run only)
             try:
                 if est[0] == "ple":
                     e = L.ProjectedLinearEstimator(mode_proj_order=est[1])
